@@ -177,6 +177,27 @@ def run_ops(ops, results, cls, parse_cvss_from_text, inter, calc):
                     results.append(["err", errname(e)])
                     continue
                 results.append(["ok", [fmt(x) for x in o.scores()], list(o.severities())])
+            elif kind == "PD":   # build, USE (hash, set member, scores, JSON), pickle -> base64 text
+                import base64
+                import pickle
+                o = cls[op[1]](op[2])
+                hash(o)
+                set([o])
+                o.scores()
+                o.as_json(minimal=True)
+                results.append(["ok", base64.b64encode(pickle.dumps(o, 2)).decode("ascii")])
+            elif kind == "PL":   # load a pickle made in ANOTHER process and compare with a locally built object
+                import base64
+                import pickle
+                p = pickle.loads(base64.b64decode(op[3]))
+                f = cls[op[1]](op[2])
+                back = cls[op[1]].from_rh_vector(p.rh_vector())
+                results.append(["ok", {"eq": [p == f, f == p, not (p != f)], "hash": hash(p) == hash(f), "set": [p in set([f]), f in set([p]), len(set([p, f])) == 1],
+                                       "dict": {f: 1}.get(p) == 1, "rh-roundtrip": back == p and p == back,
+                                       "scores": [fmt(x) for x in p.scores()] == [fmt(x) for x in f.scores()], "sev": list(p.severities()) == list(f.severities()),
+                                       "clean": p.clean_vector() == f.clean_vector(), "rh": p.rh_vector() == f.rh_vector(),
+                                       "json": [items_of(p.as_json(sort=so, minimal=mi)) == items_of(f.as_json(sort=so, minimal=mi))
+                                                for so in (False, True) for mi in (False, True)]}])
             elif kind == "X":
                 res = parse_cvss_from_text(op[1])
                 results.append(["ok", [[type(o).__name__, o.clean_vector()] for o in res]])
